@@ -4,6 +4,10 @@ Built from the property text and docs/state-machine.rst, not from the engine's c
 remembered iff a checkpoint is in effect, the plan is rewindable and its command is replayable; implicit
 checkpoints empty the memory; resume()/suspension push an expectation frame holding exactly the remembered
 message OBJECTS, in order.
+
+A never-replayed command that an interruption cancelled in mid-flight has not happened: it made no checkpoint and it
+is executed (once) after the remembered messages.  The only such command whose completion the log shows is
+'monitor' (ledger entry 'subscribe' of the monitored device).
 """
 
 from __future__ import annotations
@@ -25,7 +29,18 @@ def run_automaton(log):
     counters = {"messages": 0, "replayed": 0, "resumes_with_nonempty_frame": 0, "suspensions_with_nonempty_frame": 0,
                 "max_depth": 0, "after_clear_checkpoint": 0}
     post_clear = False    # a clear_checkpoint happened earlier in this call: later behaviour is documented loosely
+    open_monitor = None   # (msg, memory before it) of a 'monitor' whose subscription has not been seen yet
     for i, e in enumerate(log):
+        if open_monitor is not None:
+            if e[0] == "dev" and e[2] == "subscribe" and e[1] == getattr(open_monitor[0].obj, "name", None):
+                open_monitor = None          # it completed
+            elif e[0] == "msg":
+                open_monitor = None
+            elif e[0] == "state" and e[1] in ("pausing", "suspending"):
+                m0, before = open_monitor
+                open_monitor = None
+                if before is not None:
+                    cache = list(before) + [m0]     # not done: runs again after what was remembered
         if e[0] == "call" and e[1] in ("RE", "probe"):
             cache, rewindable, frames, pending_susp, post_clear = [], True, [], [], False
         elif e[0] == "call" and e[1] == "resume":
@@ -77,6 +92,8 @@ def run_automaton(log):
                 counters["after_clear_checkpoint"] += 1
             if cache is not None and rewindable and cmd not in NON_REPLAYABLE:
                 cache.append(m)
+            if cmd == "monitor":
+                open_monitor = (m, None if cache is None else list(cache))
             if cmd in IMPLICIT_CHECKPOINT:
                 if cache is not None:
                     cache = []
